@@ -17,6 +17,9 @@ for p in sorted(glob.glob(os.path.join(HERE, 'evidence', 'C*.json'))):
     fns = sorted({f['function'].split(':')[1] for f in c.get('functions_under_contract', [])})
     fn_s = f'{len(fns)}: ' + ', '.join(fns[:7]) + (' ...' if len(fns) > 7 else '') if fns else '-'
     routes = ', '.join(f'{k} {v}' for k, v in sorted(c.get('by_route', {}).items())) or '-'
+    be = {k: v for k, v in c.get('by_backend', {}).items() if k in ('z3', 'cvc5', 'eval', 'simplify')}
+    if be:
+        routes += '; smt decided by ' + ', '.join(f'{k} {v}' for k, v in sorted(be.items()))
     fk = [f for f in known if f['property'] == pid]
     fs = ', '.join(f"{f['id']} {'fixed ' + f.get('commit', '') if f['status'] == 'fixed' else 'known'}" for f in fk) or '-'
     print(f"| {pid} | {man[pid]['level_claimed']['category']} | {fn_s} | {c.get('discharged', 0)}/{c.get('obligations', 0)} ({routes}) | "
